@@ -402,4 +402,43 @@ theorem rbLoop (rank : TxId → Nat) (c : Ctx) (b : Block) (blk : BlockMeta)
           show hasCred s1 _ = true
           rw [S4 _ hn]; exact hcr
 
+-- ------------------------------------------------------------------ disconnectBlock at the tip
+
+/-- disconnectBlock of the tip height, unfolded: the inner loop over the recorded ids, then the block record
+    goes, the purge runs, and the rest is mined-side bookkeeping -/
+theorem disconnect_tip_unfold (c : Ctx) (s s' : Store) (height : Nat) (bh : BlkId) (ids : List TxId)
+    (h : disconnectBlock c s height = .ok s') (hsync : s.syncedTo = height)
+    (hblk : AMap.get s.blocks height = some (bh, ids)) :
+    ∃ acc, ids.reverse.foldlM (rbStep c ⟨height, bh⟩) { s := s, bals := s.balance, heights := [height] } = .ok acc ∧
+      pendSide s' = pendSide (acc.cb.foldl (purgeSpenders c.own)
+        (acc.heights.foldl (fun s h => { s with blocks := AMap.erase s.blocks h }) acc.s)) := by
+  unfold disconnectBlock at h
+  have h0 : height ≠ 0 := by intro hc; rw [if_pos hc] at h; cases h
+  rw [if_neg h0, if_neg (by omega : ¬ height > s.syncedTo)] at h
+  simp only [bind, Except.bind] at h
+  cases hr : rollback c s height with
+  | error e => rw [hr] at h; cases h
+  | ok s2 =>
+    rw [hr] at h
+    simp only [pure, Except.pure, Except.ok.injEq] at h
+    have hps : pendSide s' = pendSide s2 := by rw [← h]; rfl
+    unfold rollback at hr
+    have hhs : (List.range (s.syncedTo + 1 - height)).map (fun k => s.syncedTo - k) = [height] := by
+      rw [hsync]
+      have : height + 1 - height = 1 := by omega
+      rw [this]; rfl
+    simp only [] at hr
+    rw [hhs] at hr
+    simp only [List.foldlM, bind, Except.bind] at hr
+    cases hb : rollbackBlockAt c { s := s, bals := s.balance } height with
+    | error e => rw [hb] at hr; cases hr
+    | ok acc =>
+      rw [hb] at hr
+      simp only [pure, Except.pure, Except.ok.injEq] at hr
+      rw [rollbackBlockAt_eq] at hb
+      simp only [hblk] at hb
+      refine ⟨acc, hb, ?_⟩
+      rw [hps, ← hr]
+      rfl
+
 end MW.Lemmas.PendHist
